@@ -417,7 +417,7 @@ def cm_histories(chk, max_len):
 
     def pipe(point, degree):
         d = Sym.lift(degree)
-        return Stub(tag=('PIPE', d), get_hamiltonian=lambda form: Stub(tag=('HAM', d, form), hamsys=('HAMSYS', d, form)))
+        return Stub(tag=('PIPE', d), degree=d, get_hamiltonian=lambda form: Stub(tag=('HAM', d, form), degree=d, hamsys=Stub(tag=('HAMSYS', d, form), degree=d)))
     sc.get_hamiltonian_services = lambda: Stub(conversion='CONV', pipeline=Stub(get=pipe))
     sc.CenterManifoldMap = lambda dom, energy: ('MAP', Sym.lift(dom.dynamics.degree), Sym.lift(energy))
     Svc = type('CM', (cls,), {'_configure_point': lambda self: None})
@@ -457,7 +457,7 @@ def cm_histories(chk, max_len):
         if op[0] == 'H':
             return tagof(svc.hamiltonian(D[int(op[1])]))
         if op == 'Y':
-            return svc.hamsys
+            return tagof(svc.hamsys)
         if op == 'L':
             return tagof(svc.pipeline)
         if op[0] == 'M':
@@ -515,16 +515,10 @@ def cm_histories(chk, max_len):
 
 def _replay_cm(hist, env):
     """Real build: Earth-Moon L1 centre manifold; symbolic degrees mapped to small concrete degrees respecting the model's equalities."""
-    vals = {}
-    pool = [3, 2, 4]
-    for i in range(3):
-        v = env.get('deg%d' % i)
-        key = None if v is None else str(v)
-        if key is not None and key in vals:
-            continue
-        if key is not None:
-            vals[key] = pool[len(vals) % 3]
-    degs = [vals.get(str(env.get('deg%d' % i)), pool[i]) if env.get('deg%d' % i) is not None else pool[i] for i in range(3)]
+    # concrete degrees with the same order and equalities as the model's values (a change may need "lower" or "raise" specifically)
+    mv = [env.get('deg%d' % i) for i in range(3)]
+    distinct = sorted(set(v for v in mv if v is not None))
+    degs = [2 + distinct.index(v) if v is not None else 3 for v in mv]
     return '''
 from hiten.system import System
 from hiten.system.center import CenterManifold
